@@ -221,4 +221,34 @@ def ltPoint (r : Region) (c q : Nat) : Except Err (Option Bool) :=
     | none => .ok none
 
 end Region
+
+/-! ### `GreedyPartitioner.topo_sort` (bqskit/passes/partitioning/greedy.py)
+
+`in_adj_list[i]` = the `j ≠ i` with `regions[i].depends_on(regions[j])`; each round selects the
+first not-yet-selected `i` whose list is empty, appends it and deletes it from every list;
+`RuntimeError` when no such `i` exists.  `dep i j` abstracts `depends_on`; `selRev` is
+`already_selected` most recent first. -/
+
+def pickNext (dep : Nat → Nat → Bool) (n : Nat) (selRev : List Nat) : Option Nat :=
+  (List.range n).find? (fun i => !selRev.contains i &&
+    (List.range n).all (fun j => j == i || !dep i j || selRev.contains j))
+
+def topoLoop (dep : Nat → Nat → Bool) (n : Nat) : Nat → List Nat → Option (List Nat)
+  | 0, selRev => some selRev
+  | fuel + 1, selRev =>
+    match pickNext dep n selRev with
+    | none => none
+    | some i => topoLoop dep n fuel (i :: selRev)
+
+/-- indices of the regions in the order `topo_sort` returns them; `none` = RuntimeError -/
+def topoSort (dep : Nat → Nat → Bool) (n : Nat) : Option (List Nat) :=
+  (topoLoop dep n n []).map List.reverse
+
+def regionDep (rs : List Region) (i j : Nat) : Bool :=
+  match rs[i]?, rs[j]? with
+  | some r, some s => r.dependsOn s
+  | _, _ => false
+
+def topoSortRegions (rs : List Region) : Option (List Nat) := topoSort (regionDep rs) rs.length
+
 end BqVerif.Region
